@@ -98,13 +98,17 @@ pub struct StdinScript {
     pub is_tty: bool,
 }
 
+/// steps (polls of the root future that return Pending) allowed per block_on; scenarios scale it
+/// with the amount of work they ask for
+pub static DEFAULT_STEP_BUDGET: std::sync::atomic::AtomicU64 = std::sync::atomic::AtomicU64::new(2_000_000);
+
 impl Sim {
     pub fn new(tape: Tape) -> Self {
         Sim {
             tape,
             sched: SchedParams::default(),
             steps: 0,
-            step_budget: 2_000_000,
+            step_budget: DEFAULT_STEP_BUDGET.load(std::sync::atomic::Ordering::Relaxed),
             pool: Vec::new(),
             next_task_id: 0,
             now_ns: 0,
